@@ -182,7 +182,7 @@ def oracle(c, stats):
             if orth > otol:
                 fails.append("%s.orthogonality: G_S' dx_S = %.3g relative to |dx_S| (constrained corrections not orthogonal to the datum transformations)" % (tag, orth))
             e = float(np.max(np.abs(xg - R.x)))
-            tol = 1e-8 * (R.cond / max(R.sg_ratio, 1e-3)) * max(1.0, float(np.max(np.abs(R.x))))
+            tol = 1e-8 * (R.cond / max(R.sg_ratio, 1e-3)) * max(1.0, float(np.max(np.abs(R.x)))) + 1e-6    # 1e-6 mm absolute floor
             stats.ratio("minimal_norm", e / tol)
             if e > tol:
                 fails.append("%s.minimal_norm: corrections differ from the minimal-norm solution by %.3g mm" % (tag, e))
